@@ -6,7 +6,7 @@
 From Coq Require Import String.
 From Coq Require Import List Bool Arith NArith ZArith.
 Import ListNotations.
-Require Import Alloc Str Rx RxFacts G_rx TextModel TextProofs.
+Require Import Alloc Str IpText Rx RxFacts G_rx G_juniper TextModel TextProofs ValueProofs.
 
 Theorem C07_allocator_outputs_independent_of_secret_content :
   forall (key : Type) (keq : key -> key -> bool), (forall a b, keq a b = true <-> a = b) ->
@@ -15,10 +15,28 @@ Theorem C07_allocator_outputs_independent_of_secret_content :
     snd (run key keq val cls T Tjun (renL key val rho L) (map (ren key cls rho) rs)) = snd (run key keq val cls T Tjun L rs).
 Proof. exact outputs_independent_of_secret_content. Qed.
 
+(* on the EXECUTABLE model of _anonymize_value: two clear-text values of the same format class (and md5 salt length), with the same
+   enclosing text, met by lookups of the same size that do not know them, get the same replacement text -- the content of the
+   secret is never used *)
+Theorem C07_fresh_replacement_depends_only_on_class_and_counter :
+  forall orc reserved salt raw1 raw2 lk1 lk2 h t v1 v2,
+  extract_enclosing raw1 [] [] = (h, v1, t) -> extract_enclosing raw2 [] [] = (h, v2, t) ->
+  mem_str v1 reserved = false -> mem_str v2 reserved = false -> is_empty v1 = false -> is_empty v2 = false ->
+  starts_with MAGIC v1 = false -> starts_with MAGIC v2 = false ->
+  check_format v1 = check_format v2 -> md5_salt_size v1 = md5_salt_size v2 ->
+  lget lk1 v1 = None -> lget lk2 v2 = None -> length lk1 = length lk2 ->
+  match anonymize_value orc raw1 lk1 reserved salt, anonymize_value orc raw2 lk2 reserved salt with
+  | Done (o1, lk1'), Done (o2, lk2') => o1 = o2 /\ length lk1' = length lk2' /\ length lk1' = S (length lk1)
+  | Raised w1, Raised w2 => w1 = w2
+  | _, _ => False
+  end.
+Proof. exact fresh_replacement_depends_only_on_class_and_counter. Qed.
+
 (* every sensitive-line pattern read from the source is non-nullable: a secret-bearing match is never empty *)
 Theorem C07_generated_line_patterns_consume_text :
   forallb (fun g => forallb (fun it => negb (nullable (fst (fst it)))) g) PWD_REGEXES = true.
 Proof. vm_compute. reflexivity. Qed.
 
 Print Assumptions C07_allocator_outputs_independent_of_secret_content.
+Print Assumptions C07_fresh_replacement_depends_only_on_class_and_counter.
 Print Assumptions C07_generated_line_patterns_consume_text.
